@@ -263,6 +263,9 @@ impl<const RX: usize> TransportVisitor for V<RX> {
                         continue;
                     }
                     let payload: Vec<u8> = (0..len as u64).map(|i| sbyte(p_stream_pos + i)).collect();
+                    // Like every packet of a real peer, a data packet carries the peer's current
+                    // counters: credit is refreshed by data packets too, not only by updates.
+                    p_fwd = p_rx_total;
                     let h = peer_hdr(OP_RW, len, p_buf_alloc, p_fwd);
                     dev.deliver(0, &h, &payload);
                     p_stream_pos += len as u64;
